@@ -149,7 +149,7 @@ func (c *Cache) refresh() error {
 		conflicts  = map[string]struct{}{}
 		specErrors = map[string][]error{}
 	)
-	verifPoint("refresh.begin", "", 0)
+	verifPoint("refresh.begin", c.verifTag(), 0)
 
 	// collect errors per spec file path and once globally
 	collectError := func(err error, paths ...string) {
@@ -212,11 +212,11 @@ func (c *Cache) refresh() error {
 	c.scanFailed = scanFailed || isOutOfDescriptors(scanErr)
 
 	c.specs = specs
-	verifPoint("refresh.swap", "", 1)
+	verifPoint("refresh.swap", c.verifTag(), 1)
 	c.devices = devices
-	verifPoint("refresh.swap", "", 2)
+	verifPoint("refresh.swap", c.verifTag(), 2)
 	c.errors = specErrors
-	verifPoint("refresh.end", "", len(devices))
+	verifPoint("refresh.end", c.verifTag(), len(devices))
 
 	errs := []error{}
 	for _, specErrs := range specErrors {
